@@ -219,6 +219,8 @@ func indexIngest(repo Repo, index *types.Index, conf config.Config, locked bool)
 					types.AnnotReferrerSubject: refSubj.String(),
 				}
 				index.AddDesc(newDesc)
+				// the fallback tag has been converted, only the referrers response entry remains
+				index.RmDesc(desc)
 				mod = true
 			}
 			// if the response cannot be quickly converted, save for later
